@@ -27,6 +27,8 @@
 #include <new>
 #include <utility>
 
+#include <dispenso/platform.h>
+
 namespace dispenso {
 
 /**
@@ -416,14 +418,30 @@ class SmallVector {
       ptr[i].~T();
     }
     if (!isInline()) {
-      ::operator delete(storage_.heap_.ptr);
+      deallocateHeap(storage_.heap_.ptr);
+    }
+  }
+
+  // Heap blocks must honour alignof(T); plain operator new only promises the default new alignment,
+  // which is too little for over-aligned element types.
+  static T* allocateHeap(size_type count) {
+    if (alignof(T) > alignof(std::max_align_t)) {
+      return static_cast<T*>(detail::alignedMalloc(count * sizeof(T), alignof(T)));
+    }
+    return static_cast<T*>(::operator new(count * sizeof(T)));
+  }
+  static void deallocateHeap(T* ptr) noexcept {
+    if (alignof(T) > alignof(std::max_align_t)) {
+      detail::alignedFree(ptr);
+    } else {
+      ::operator delete(ptr);
     }
   }
 
   // Grow to heap storage with the specified capacity.
   // Moves existing elements, frees old heap if applicable, sets heap bit.
   void growToHeap(size_type newCap) {
-    T* newData = static_cast<T*>(::operator new(newCap * sizeof(T)));
+    T* newData = allocateHeap(newCap);
     T* oldData = data();
     size_type sz = rawSize();
 
@@ -433,7 +451,7 @@ class SmallVector {
     }
 
     if (!isInline()) {
-      ::operator delete(storage_.heap_.ptr);
+      deallocateHeap(storage_.heap_.ptr);
     }
 
     storage_.heap_.ptr = newData;
